@@ -86,7 +86,11 @@ def read_ver(kind, path):
     return v
 
 
-State = collections.namedtuple("State", "sys backup pkg")   # sys/backup: tuple of 4 (None|'A'|'B'), pkg: 'A'|'B'
+# sys/backup: tuple of 4 (None|'A'|'B'), pkg: 'A'|'B', svc: run state of the service as the systemctl stand-in keeps it
+# ('active' | 'activating' (crash-looping, between two restart attempts) | 'inactive')
+State = collections.namedtuple("State", "sys backup pkg svc")
+SYSTEMCTL_STATE = "/usr/local/vt-bin/systemctl.state"
+QUERY_VERBS = ("is-active", "is-enabled", "is-failed", "status", "show", "cat", "list-units", "list-unit-files", "--version", "is-system-running")
 
 
 def materialize(s):
@@ -106,10 +110,16 @@ def materialize(s):
         put(p, b"sentinel " + p.encode(), 0o640, T0 - 5)
     if os.path.exists(SYSTEMCTL_LOG):
         os.unlink(SYSTEMCTL_LOG)
+    with open(SYSTEMCTL_STATE, "w") as f:
+        f.write(s.svc)
 
 
 def observe():
-    return State(tuple(read_ver(k, SYS[k]) for k in FILES), tuple(read_ver(k, BACKUP[k]) for k in FILES), None)
+    try:
+        svc = open(SYSTEMCTL_STATE).read().strip()
+    except OSError:
+        svc = "?"
+    return State(tuple(read_ver(k, SYS[k]) for k in FILES), tuple(read_ver(k, BACKUP[k]) for k in FILES), None, svc)
 
 
 def sentinels_ok():
@@ -127,20 +137,20 @@ COMMANDS = ["backup", "install-A", "install-B", "restore", "uninstall-service", 
 
 
 def model(s, cmd):
-    """successor state + expected systemctl verbs, from the statement"""
+    """successor file state + whether the command replaces system files of a (possibly running) service, from the statement"""
     sysf, bak, pkg = list(s.sys), list(s.backup), s.pkg
-    calls = []
+    replaces = False
     if cmd == "backup":
         for i in range(4):
             if sysf[i]:
                 bak[i] = sysf[i]
     elif cmd.startswith("install-"):
         pkg = cmd[-1]
-        calls = ["stop", "unmask", "daemon-reload", "enable", "start"]
+        replaces = True
         sysf = [pkg] * 4
     elif cmd == "restore":
         if bak[0] is not None:            # a backup exists iff the backed-up executable exists
-            calls = ["stop", "unmask", "daemon-reload", "enable", "start"]
+            replaces = True
             for i in range(4):
                 if bak[i]:
                     sysf[i] = bak[i]
@@ -148,14 +158,12 @@ def model(s, cmd):
                 return None               # unit file missing in the backup: outcome not specified by the statement
             bak = [None] * 4              # restore deletes the backup (the CLI offers no way to keep it)
     elif cmd == "uninstall-service":
-        calls = ["stop", "disable"] + (["daemon-reload"] if sysf[3] else [])
         sysf[3] = None
     elif cmd == "uninstall-package":
-        calls = ["stop", "disable"] + (["daemon-reload"] if sysf[3] else [])
         sysf = [None] * 4
     elif cmd == "purge":
         bak = [None] * 4
-    return State(tuple(sysf), tuple(bak), pkg), calls
+    return State(tuple(sysf), tuple(bak), pkg, s.svc), replaces
 
 
 def run_tool(cmd, trace=None):
@@ -170,7 +178,7 @@ def run_tool(cmd, trace=None):
 
 
 def systemctl_log():
-    """list of (verb, snapshot of system files at that moment)"""
+    """list of (verb, snapshot of system files at that moment, run state of the service before the call)"""
     out = []
     if os.path.exists(SYSTEMCTL_LOG):
         for line in open(SYSTEMCTL_LOG):
@@ -181,16 +189,21 @@ def systemctl_log():
             # service may still be running afterwards
             if verb == "stop" and any(w in ("--no-block", "--job-mode=ignore-dependencies", "--no-wait") or w.startswith("--no-block") for w in words):
                 verb = "stop(asynchronous)"
-            out.append((verb, tuple(x if x else None for x in parts[1:5])))
+            out.append((verb, tuple(x if x else None for x in parts[1:5]), parts[5] if len(parts) > 5 else "?"))
     return out
 
 
 def install_systemctl_stub():
     """recording stand-in for systemctl (a small C program: verb + FNV-1a of the four system files at the moment of the call)"""
     os.makedirs("/usr/local/vt-bin", exist_ok=True)
+    # documented systemctl behaviour that the tool can observe: `is-active` exits 0 only in state active (3 otherwise:
+    # activating, deactivating, inactive); `stop` waits for the job unless --no-block and exits 5 for a unit that is
+    # neither loaded nor on disk; `start` of a unit without unit file exits 5; `enable` / `disable` of a unit without unit
+    # file exit 1 ("Unit file ... does not exist"); `unmask` of a missing unit and `daemon-reload` exit 0
     src = r"""
 #include <stdio.h>
 #include <string.h>
+#include <unistd.h>
 static void h(const char *p, char *out) {
     FILE *f = fopen(p, "rb");
     if (!f) { out[0] = 0; return; }
@@ -201,14 +214,41 @@ static void h(const char *p, char *out) {
 }
 int main(int argc, char **argv) {
     const char *files[4] = {"%s", "%s", "%s", "%s"};
-    char line[4096] = ""; char hh[64];
-    for (int i = 1; i < argc; i++) { strcat(line, argv[i]); if (i + 1 < argc) strcat(line, " "); }
+    const char *statef = "%s";
+    char line[4096] = ""; char hh[64]; char st[64] = "inactive";
+    const char *verb = ""; int noblock = 0, now = 0;
+    for (int i = 1; i < argc; i++) {
+        strcat(line, argv[i]); if (i + 1 < argc) strcat(line, " ");
+        if (argv[i][0] != '-') { if (!verb[0]) verb = argv[i]; }
+        else if (!strncmp(argv[i], "--no-block", 10) || !strcmp(argv[i], "--no-wait")) noblock = 1;
+        else if (!strcmp(argv[i], "--now")) now = 1;
+    }
     for (int i = 0; i < 4; i++) { h(files[i], hh); strcat(line, "|"); strcat(line, hh); }
+    FILE *s = fopen(statef, "r");
+    if (s) { if (fscanf(s, "%%63s", st) != 1) strcpy(st, "inactive"); fclose(s); }
+    int unit_on_disk = access(files[3], F_OK) == 0;
+    int rc = 0; const char *next = st;
+    if (!strcmp(verb, "is-active")) { printf("%%s\n", st); rc = strcmp(st, "active") ? 3 : 0; }
+    else if (!strcmp(verb, "is-enabled")) { printf("enabled\n"); rc = unit_on_disk ? 0 : 1; }
+    else if (!strcmp(verb, "stop")) {
+        if (!unit_on_disk && !strcmp(st, "inactive")) { fprintf(stderr, "Failed to stop unit: Unit not loaded.\n"); rc = 5; }
+        else if (noblock) next = strcmp(st, "inactive") ? "deactivating" : st;
+        else next = "inactive";
+    }
+    else if (!strcmp(verb, "start") || !strcmp(verb, "restart")) {
+        if (!unit_on_disk) { fprintf(stderr, "Failed to start unit: Unit not found.\n"); rc = 5; }
+        else next = "active";
+    }
+    else if (!strcmp(verb, "enable") || !strcmp(verb, "disable")) {
+        if (!unit_on_disk) { fprintf(stderr, "Failed to %%s unit: Unit file does not exist.\n", verb); rc = 1; }
+        else if (now) next = !strcmp(verb, "enable") ? "active" : "inactive";
+    }
+    if (next != st) { s = fopen(statef, "w"); if (s) { fputs(next, s); fclose(s); } }
     FILE *o = fopen("%s", "a");
-    if (o) { fprintf(o, "%%s\n", line); fclose(o); }
-    return 0;
+    if (o) { fprintf(o, "%%s|%%s|%%d\n", line, st, rc); fclose(o); }
+    return rc;
 }
-""" % (SYS["exe"], SYS["config"], SYS["ebpf"], SYS["unit"], SYSTEMCTL_LOG)
+""" % (SYS["exe"], SYS["config"], SYS["ebpf"], SYS["unit"], SYSTEMCTL_STATE, SYSTEMCTL_LOG)
     with open("/usr/local/vt-bin/systemctl.c", "w") as f:
         f.write(src)
     r = subprocess.run(["gcc", "-O1", "-o", "/usr/local/vt-bin/systemctl", "/usr/local/vt-bin/systemctl.c"], stdout=subprocess.PIPE, stderr=subprocess.STDOUT)
@@ -229,7 +269,7 @@ def sha_state(vers):
     return tuple(fnv(content(k, v)) if v in ("A", "B") else None for k, v in zip(FILES, vers))
 
 
-ALLOWED_WRITE_PREFIXES = [D + "/ProxyAgent/Backup", D + "/setup", "/dev/null", "/dev/tty", SYSTEMCTL_LOG, "/proc/self", "/dev/pts"]
+ALLOWED_WRITE_PREFIXES = [D + "/ProxyAgent/Backup", D + "/setup", "/dev/null", "/dev/tty", SYSTEMCTL_LOG, SYSTEMCTL_STATE, "/proc/self", "/dev/pts"]
 
 
 def audit_trace(path):
@@ -280,10 +320,15 @@ def main():
     thorough = TIER == "thorough"
     depth = 5 if thorough else 4
     inits = [
-        ("nothing-installed", State((None,) * 4, (None,) * 4, "A")),
-        ("A-installed", State(("A",) * 4, (None,) * 4, "B")),
-        ("A-installed+backup-of-A", State(("A",) * 4, ("A",) * 4, "B")),
-        ("A-installed+stale-backup-of-B", State(("A",) * 4, ("B",) * 4, "B")),
+        ("nothing-installed", State((None,) * 4, (None,) * 4, "A", "inactive")),
+        ("A-installed", State(("A",) * 4, (None,) * 4, "B", "active")),
+        ("A-installed+backup-of-A", State(("A",) * 4, ("A",) * 4, "B", "active")),
+        ("A-installed+stale-backup-of-B", State(("A",) * 4, ("B",) * 4, "B", "active")),
+        # the installed agent is crash-looping (between two restart attempts): the moment a roll-back is wanted
+        ("A-installed+backup-of-A,service-activating", State(("A",) * 4, ("A",) * 4, "B", "activating")),
+        ("A-installed,service-activating", State(("A",) * 4, (None,) * 4, "B", "activating")),
+        # the operator has stopped the service
+        ("A-installed+backup-of-A,service-inactive", State(("A",) * 4, ("A",) * 4, "B", "inactive")),
     ]
     replay = os.environ.get("VERIF_REPLAY")
     only = None
@@ -304,15 +349,15 @@ def main():
         rc, out = run_tool(cmd, tr)
         transitions += 1
         obs = observe()
-        obs = State(obs.sys, obs.backup, cmd[-1] if cmd.startswith("install-") else s.pkg)
-        case = {"initial": history[0], "commands": history[1] + [cmd], "state_before": {"system": s.sys, "backup": s.backup, "package_beside_tool": s.pkg}}
-        m = model(s if not cmd.startswith("install-") else State(s.sys, s.backup, cmd[-1]), cmd)
+        obs = State(obs.sys, obs.backup, cmd[-1] if cmd.startswith("install-") else s.pkg, obs.svc)
+        case = {"initial": history[0], "commands": history[1] + [cmd], "state_before": {"system": s.sys, "backup": s.backup, "package_beside_tool": s.pkg, "service": s.svc}}
+        m = model(s if not cmd.startswith("install-") else State(s.sys, s.backup, cmd[-1], s.svc), cmd)
         if cmd.startswith("install-"):
             # the package beside the tool is swapped before the command runs
             pass
         if m is None:
             return obs
-        want, calls = m
+        want, replaces = m
         if tr:
             trace_audits += 1
             for b in audit_trace(tr):
@@ -328,24 +373,41 @@ def main():
             violation("wrong-result:%s:%s" % (cmd.split("-")[0] if not cmd.startswith("uninstall") else cmd, which),
                       "%s from (system %s, backup %s, package %s) gave system %s backup %s; the statement gives system %s backup %s (order: exe, config, ebpf, unit)"
                       % (cmd, s.sys, s.backup, s.pkg, obs.sys, obs.backup, want.sys, want.backup), case)
-        log = systemctl_log()
-        verbs = [v for v, _ in log]
-        if "stop(asynchronous)" in verbs:
-            violation("service-not-stopped-before-files-replaced:" + cmd.split("-")[0], "%s asked systemctl to stop the service without waiting for it (--no-block): the files are replaced while the service may still be running" % cmd, case)
-        elif verbs != calls:
-            violation("service-calls:" + cmd.split("-")[0], "%s made systemctl calls %s, expected %s" % (cmd, verbs, calls), case)
-        else:
-            # stopped before any file was replaced, started after the last one
-            before, after = sha_state(s.sys), sha_state(want.sys)
-            for v, snap in log:
-                if v == "stop" and snap != before:
-                    violation("file-replaced-before-stop:" + cmd.split("-")[0], "%s: at 'systemctl stop' the system files had already changed" % cmd, case)
-                if v == "start" and snap != after:
+        log = [e for e in systemctl_log() if e[0] not in QUERY_VERBS]
+        verbs = [e[0] for e in log]
+        if replaces:
+            # "the service having been stopped before any file was replaced and started again afterwards": judged on the
+            # service's run state as the stand-in keeps it and on the fingerprints of the four files taken at every call
+            if "stop(asynchronous)" in verbs:
+                violation("service-not-stopped-before-files-replaced:" + cmd.split("-")[0], "%s asked systemctl to stop the service without waiting for it (--no-block): the files are replaced while the service may still be running" % cmd, case)
+            else:
+                running = s.svc != "inactive"
+                prev = sha_state(s.sys)
+                final = tuple(fnv(open(SYS[k], "rb").read()) if os.path.exists(SYS[k]) else None for k in FILES)
+                last_start = None
+                for v, snap, _st in log:
+                    if snap != prev and running:
+                        violation("file-replaced-while-service-not-stopped:%s:service-%s" % (cmd.split("-")[0], s.svc),
+                                  "%s with the service in state '%s': system files changed before 'systemctl %s' while the service had not been stopped (calls: %s)" % (cmd, s.svc, v, verbs), case)
+                        break
+                    prev = snap
+                    if v == "stop":
+                        running = False
+                    elif v in ("start", "restart"):
+                        running = True
+                        last_start = snap
+                else:
+                    if final != prev and running:
+                        violation("file-replaced-while-service-not-stopped:%s:service-%s" % (cmd.split("-")[0], s.svc),
+                                  "%s with the service in state '%s': system files changed after the last systemctl call while the service was running (calls: %s)" % (cmd, s.svc, verbs), case)
+                if obs.svc != "active":
+                    violation("service-not-started-afterwards:" + cmd.split("-")[0], "%s ended with the service in state '%s' (calls: %s)" % (cmd, obs.svc, verbs), case)
+                elif last_start is not None and last_start != final:
                     violation("start-before-last-file:" + cmd.split("-")[0], "%s: at 'systemctl start' the system files were not yet the final ones" % cmd, case)
         return obs
 
     def install_pkg(s, ver):
-        return State(s.sys, s.backup, ver)
+        return State(s.sys, s.backup, ver, s.svc)
 
     for iname, init in inits:
         if only and only.get("initial") != iname:
@@ -369,7 +431,7 @@ def main():
                     seen.add(obs)
                     frontier.append((obs, hist + [cmd]))
                     if len(samples) < 4:
-                        samples.append({"initial": iname, "commands": hist + [cmd], "state": {"system": obs.sys, "backup": obs.backup}})
+                        samples.append({"initial": iname, "commands": hist + [cmd], "state": {"system": obs.sys, "backup": obs.backup, "service": obs.svc}})
             # headline from every reachable state with a complete installation: backup; install the other version; restore
             if all(v in ("A", "B") for v in s.sys) and not only:
                 other = "B" if s.sys[0] == "A" else "A"
@@ -395,7 +457,7 @@ def main():
     res["coverage"] = {
         "states": len(states_seen), "transitions": transitions, "traces_validated_against_impl": transitions,
         "headline_round_trips": headline, "strace_write_set_audits": trace_audits, "depth_bound": depth, "exhaustive": True,
-        "rule": "BFS to depth %d over {backup, install (package A or B beside the tool), restore, uninstall service, uninstall package, purge} from 4 initial states (nothing installed; A installed; A + backup of A; A + stale backup of B), deduplicated on the canonical file tree (version of each of the four system files and four backup files); every transition runs the real release build of proxy_agent_setup on a freshly materialised tree with a recording systemctl; from every reachable complete installation the round trip backup, install other version, restore is executed; the two versions of the executable and of the unit have equal length, the configuration grows and the eBPF object shrinks from A to B; realistic mtimes (package < backup < installed)" % depth,
+        "rule": "BFS to depth %d over {backup, install (package A or B beside the tool), restore, uninstall service, uninstall package, purge} from 7 initial states (nothing installed; A installed; A + backup of A; A + stale backup of B; A (+ backup) with the service crash-looping ('activating'); A + backup with the service stopped), deduplicated on the canonical file tree (version of each of the four system files and four backup files) and the service's run state; every transition runs the real release build of proxy_agent_setup on a freshly materialised tree with a recording, stateful systemctl stand-in (run state active / activating / inactive; is-active, stop, start, enable, disable answer and fail as documented for systemctl, e.g. disable of a unit without unit file exits 1); install and restore are judged on 'no system file changes while the service is not stopped' and 'started afterwards, after the last file' from the fingerprints the stand-in takes at every call (query verbs are not judged); from every reachable complete installation the round trip backup, install other version, restore is executed; the two versions of the executable and of the unit have equal length, the configuration grows and the eBPF object shrinks from A to B; realistic mtimes (package < backup < installed)" % depth,
         "samples": samples,
     }
     res["assumptions"] = ["restore always deletes the backup: the release CLI accepts no value for delete_backup",
